@@ -187,7 +187,7 @@ def run(ctx):
                 if mode == "schnorr-verify" and p > (7 if q else 31):
                     continue
                 jobs.append((lambda cfg=cfg, mode=mode, n=n, p=p, a=a, b=b, g=g:
-                             ((p, a, b, n, g), mode, ctx.table("curve/MC_Sigs.tla", cfg, env={"MODE": mode, "ZMAX": 1, "RSMAX": 1}, timeout=3000))))
+                             ((p, a, b, n, g), mode, ctx.table("curve/MC_Sigs.tla", cfg, env={"MODE": mode, "ZMAX": 1, "RSMAX": 1}, timeout=7200))))
         tabs = ctx.parallel(jobs, workers=8)
         replay_toy(ctx, tabs)
         ctx.exhaustive.append("toy groups %s with toy hashes: every secret x 4 messages x 2 aux signed; every (x-only key candidate 0..p+1, R 0..p+1, s 0..n+1) verified" % curves)
@@ -196,7 +196,7 @@ def run(ctx):
         cases = real_cases(ctx, rng, 8 if q else 80, 1 if q else 6)
         byid = {c["id"]: c for c in cases}
         send = [{k: v for k, v in c.items() if k not in ("name", "raw")} for c in cases]
-        bad = ctx.validate("curve/SigCases.tla", send, "SigCases.cfg", timeout=3000, per_shard_min=20)
+        bad = ctx.validate("curve/SigCases.tla", send, "SigCases.cfg", timeout=7200, per_shard_min=20)
         for cid, why in bad.items():
             c = byid[cid]
             ctx.violation("real-%s:%s:%s" % (c["kind"], why, c.get("name", "")), "secp256k1 %s case %s: %s %s" % (c["kind"], cid, why, c.get("raw", "")),
